@@ -35,11 +35,44 @@ def family(name, n):
         return "l = [" + ", ".join(str(i) for i in range(n)) + "]\nprint(len(l))\n"
     if name == "nested-parens-call":
         return "v = " + "abs(" * n + "1" + ")" * n + "\nprint(v)\n"
+    if name.startswith("deep-expr-in:"):
+        # a long operator chain in every kind of expression position (each position has its own code path)
+        e = " + ".join("1" for _ in range(n))
+        return DEEP_CONTEXTS[name.split(":", 1)[1]].replace("{E}", e)
     raise ValueError(name)
 
 
+DEEP_CONTEXTS = {
+    "aug-name": "s = 0\ns += {E}\nprint(s)\n",
+    "aug-subscript": "d = [0]\nd[0] += {E}\nprint(d)\n",
+    "aug-attribute": "class O:\n    a = 0\no = O()\no.a += {E}\nprint(o.a)\n",
+    "aug-in-function": "def f():\n    s = 0\n    s += {E}\n    return s\nprint(f())\n",
+    "aug-in-class": "class K:\n    s = 0\n    s += {E}\nprint(K.s)\n",
+    "ann-assign": "s: int = {E}\nprint(s)\n",
+    "chained-assign": "a = b = {E}\nprint(a, b)\n",
+    "unpack-value": "a, b = {E}, 2\nprint(a, b)\n",
+    "subscript-target-index": "d = {}\nd[{E}] = 1\nprint(d)\n",
+    "return": "def f():\n    return {E}\nprint(f())\n",
+    "call-arg": "print({E})\n",
+    "call-kwarg": "print(1, end=str({E}) + '\\n')\n",
+    "if-test": "if {E}:\n    print('t')\n",
+    "while-test": "n = 0\nwhile n < {E}:\n    n += 1000000\nprint(n)\n",
+    "for-iter": "for i in [{E}]:\n    print(i)\n",
+    "default": "def f(a={E}, *, k={E}):\n    return a + k\nprint(f())\n",
+    "decorator": "def d(n):\n    return lambda f: f\n@d({E})\ndef f():\n    return 1\nprint(f())\n",
+    "class-base-keyword": "class M(type):\n    def __new__(m, n, b, ns, **k):\n        return super().__new__(m, n, b, ns)\n    def __init__(c, n, b, ns, **k):\n        pass\nclass K(metaclass=M, k={E}):\n    pass\nprint(K.__name__)\n",
+    "lambda-body": "f = lambda: {E}\nprint(f())\n",
+    "comprehension-elt": "print([{E} for _ in range(1)])\n",
+    "fstring-field": "print(f'{{E}}')\n",
+    "walrus": "print((w := {E}), w)\n",
+    "expression-statement": "{E}\nprint('done')\n",
+    "class-body-value": "class K:\n    v = {E}\nprint(K.v)\n",
+    "nonlocal-store": "def f():\n    v = 0\n    def g():\n        nonlocal v\n        v = {E}\n    g()\n    return v\nprint(f())\n",
+    "global-store": "def f():\n    global gv\n    gv = {E}\nf()\nprint(gv)\n",
+}
+
 FAMILIES = ["statements", "statements-in-function", "statements-in-loop", "elif-chain", "dispatch-return", "dispatch-continue", "binop-chain", "boolop-chain", "attribute-chain",
-            "call-chain", "nested-if", "nested-for", "list-display", "nested-parens-call"]
+            "call-chain", "nested-if", "nested-for", "list-display", "nested-parens-call"] + ["deep-expr-in:" + c for c in DEEP_CONTEXTS]
 DEEP = {"nested-if": 90, "nested-for": 18, "nested-parens-call": 150}   # CPython's own limits for the source are near these
 
 
@@ -87,7 +120,7 @@ def known_shape(fam, n, cfg, verdict):
     """attribute a failing run to one of the listed known findings (by option, family and failure kind)"""
     if cfg[1] == "chain_call" and fam in ("statements", "statements-in-function", "statements-in-loop") and "RecursionError" in verdict:
         return "KF-D51"     # the chain-call wrapper nests one call per consecutive statement of a block
-    if cfg[0] == "ast.unparse" and verdict == "fail:convert RecursionError" and fam in ("elif-chain", "dispatch-return", "dispatch-continue", "binop-chain", "boolop-chain", "attribute-chain", "call-chain"):
+    if cfg[0] == "ast.unparse" and verdict == "fail:convert RecursionError" and fam in ("elif-chain", "dispatch-return", "dispatch-continue", "binop-chain", "boolop-chain", "attribute-chain", "call-chain") + tuple("deep-expr-in:" + c for c in DEEP_CONTEXTS):
         return "KF-D53"     # the stdlib unparser is recursive: output nested deeper than the recursion limit
     if cfg[2] == "short_circuit" and fam in ("elif-chain", "dispatch-return", "dispatch-continue") and ("MemoryError(compile)" in verdict or "RecursionError" in verdict):
         return "KF-D54"     # the short-circuit style adds three operator levels per elif: the parser's stack overflows
